@@ -22,7 +22,8 @@ RULE = ("indices: every index below the tier bound (quick 4096, thorough 262144)
         "Rosenberg-Strong, d=3 for Szudzik/Pepis-Kalmar), plus directed indices within +-3 of m^2, m^3, m^4, m(m+1)/2, 2^k "
         "for m up to 2^32 (powers of two +-1 and seeded random m in every binade); tuples: every point of a square/cube "
         "and seeded random large coordinates; intervals: every (L,R) with 1<=L,R<=12, omit_zero in {True,False}, increasing "
-        "order and seeded random call histories on fresh objects; sizes: every list over {1..4} of length 1..3, lists with "
+        "order and seeded random call histories on fresh objects, plus long asymmetric intervals (long side 1100..5000, short "
+        "side 1..8) enumerated in order and then asked again, and 1-d grids 4|1400, 1400|3 drained and probed after exhaustion; sizes: every list over {1..4} of length 1..3, lists with "
         "zeros/ones and seeded random unequal lists; grids: the six 1-d constructors x model families through "
         "create_sampling_inversion_method, synthetic (L,R), box grids d=2,3 (fixed-size, copula credit) x every pairing. "
         "non-trivial = index >= 2 / at least two states; distinct = distinct (probe, pairing, d, block or shape)")
@@ -34,6 +35,8 @@ NOT_PROVED = ["HyperbolicPairing (divisor-summatory inverse + factorisation): bi
               "that the bound exceeds every in-box index (states_manager_box); the code's bound max(frontier)+1 satisfies it "
               "for Szudzik, Cantor, Pepis-Kalmar in every dimension >= 2 (monotone_frontier_bound) and violates it for "
               "Rosenberg-Strong (rs_frontier_bound_counterexample, known finding C14-rs-frontier-bound)",
+              "the @cache of PairingToZ1d.project is modelled as a memo of the first answer per index that is never evicted "
+              "(theorem z1d_memo_stable: a repeated ask returns the first answer for every history); functools itself is trusted",
               "StatesManager theorems are for the calls x = 0, 1, 2, ... on a fresh object (the inversion sampler's use); "
               "other call histories and the max_logged reset are compared with M only",
               "Domain boundaries other than `Boundary()` (Rectangle/Simplex/MyBoundary) are not modelled",
@@ -315,6 +318,51 @@ def probe_z1d_increasing(ctx, inp):
                                                            "impl_state": [int(p._switch), int(p._kk)], "model_run": mrun}, cls=cls)
 
 
+def probe_z1d_stable(ctx, inp):
+    """long asymmetric intervals: one in-order enumeration (bijection, pair inverse), then every index is asked again
+    (second in-order pass, then project(pair(v)) for every state): the answers must be the first ones. The `@cache` of
+    project is what makes index -> state a function once `_switch/_kk` moved on (M: memo never evicted, z1d_memo_stable)"""
+    L, R, omit = inp["L"], inp["R"], inp["omit"]
+    probe = "c14.z1d_stable"
+    o = 1 if omit else 0
+    n = L + R + 1 - o
+    cls = dict(symmetric=(L == R), history_increasing=True)
+    ctx.count(probe, inp, branch="L<R" if L < R else ("L>R" if L > R else "L=R"))
+    ctx.evaluations += 3 * n - 1
+    p = PairingToZ1d((-L, R), omit_zero=omit)
+    ok, first = ctx.guard(probe, inp, lambda: [int(p.project(i)) for i in range(n)])
+    if not ok:
+        ctx.fail("oracle", probe, inp, {"what": "project raised", "exception": repr(first)}, cls=cls)
+        return
+    want = interval_states(L, R, omit)
+    if sorted(first) != want or [int(p.pair(v)) for v in first] != list(range(n)):
+        bad = next((i for i, v in enumerate(first) if not (-L <= v <= R) or int(p.pair(v)) != i), None)
+        ctx.fail("oracle", probe, inp, {"what": "in-order enumeration is not a bijection onto the interval inverted by pair",
+                                        "first_bad_index": bad, "state": first[bad] if bad is not None else None}, cls=cls)
+        return
+    ok, second = ctx.guard(probe, inp, lambda: [int(p.project(i)) for i in range(n)])
+    if not ok or second != first:
+        k = next((i for i, (a, b) in enumerate(zip(first, second)) if a != b), None) if ok else None
+        ctx.fail("oracle", probe, inp, {"what": "project(i) asked a second time (same increasing order) answers a different state: "
+                                                "pair(project(i)) != i", "index": k, "first_answer": first[k] if k is not None else None,
+                                        "second_answer": second[k] if k is not None else repr(second),
+                                        "pair_of_second": int(p.pair(second[k])) if k is not None else None}, cls=cls)
+        return
+    ok, back = ctx.guard(probe, inp, lambda: [int(p.project(int(p.pair(v)))) for v in want])
+    if not ok or back != want:
+        k = next((i for i, (a, b) in enumerate(zip(want, back)) if a != b), None) if ok else None
+        ctx.fail("oracle", probe, inp, {"what": "project(pair(v)) != v after the full enumeration", "state": want[k] if k is not None else None,
+                                        "got": back[k] if k is not None else repr(back)}, cls=cls)
+        return
+    model = il(ctx.lean(f"z1d {L} {R} {o} {n}"))
+    ok_model = model == first
+    if ok_model and n <= 1200:      # the object as coded incl. its memo, asked twice (quadratic in M: small shapes only)
+        mrun = ctx.lean(f"z1drun {L} {R} {o} {wi(list(range(n)) + list(range(n)))}").split(" ")
+        ok_model = il(mrun[0]) == first + second and [int(mrun[1]), int(mrun[2])] == [int(p._switch), int(p._kk)]
+    if not ok_model:
+        ctx.fail("corr", probe + ".model", inp, {"name": "Drivers/C14 z1d / z1drun (two passes) vs PairingToZ1d.project"}, cls=cls)
+
+
 def probe_z1d_order(ctx, inp):
     """a call history on a FRESH object: C against the state machine of M; S: the answers must not depend on the order"""
     L, R, omit, hist = inp["L"], inp["R"], inp["omit"], inp["history"]
@@ -397,7 +445,7 @@ def box_states(o, ns):
     return [v for v in itertools.product(*[range(-o, n - o) for n in ns]) if any(v)]
 
 
-def sm_check(ctx, probe, inp, cls, sm, d, o, ns, model_req, first=None):
+def sm_check(ctx, probe, inp, cls, sm, d, o, ns, model_req, first=None, after_calls=3):
     """increasing calls x = 0,1,2,… until exhaustion (+3): S exactly-once-then-exhaustion, C against M"""
     states = box_states(o, ns)
     limit = int(sm.max_frontier_indices) + 5
@@ -405,13 +453,13 @@ def sm_check(ctx, probe, inp, cls, sm, d, o, ns, model_req, first=None):
     x = 0
     exhausted_at = None
     try:
-        while x <= limit + 3:
+        while x <= limit + after_calls:
             o1, a1 = run_manager(sm, d, [x], -1, first=first)
             outs += o1
             after += a1
             if o1[0] is None and exhausted_at is None:
                 exhausted_at = x
-            if exhausted_at is not None and x >= exhausted_at + 3:
+            if exhausted_at is not None and x >= exhausted_at + after_calls:
                 break
             x += 1
     except Exception as e:  # noqa
@@ -488,6 +536,31 @@ def probe_sm_1d(ctx, inp):
     ctx.evaluations += L + R
     sm_check(ctx, probe, dict(inp, L=L, R=R), cls, sm, 1, L, [L + R + 1],
              lambda xs: f"sm1d {L} {R} -1 {wi(xs)}", first=first)
+
+
+def probe_sm_frontier_after_exhaustion(ctx, inp):
+    """real 1-d CTMCGrid, very asymmetric: drain the StatesManager, then the states handed back at exhaustion
+    (`_sample_frontier_state_increment` re-projects the two frontier indices) must be in-grid frontier states"""
+    probe = "c14.sm_frontier_after_exhaustion"
+    L, R = inp["L"], inp["R"]
+    cls = dict(source="synthetic", L=L, R=R)
+    ctx.count(probe, inp, branch="L<R" if L < R else "L>R")
+    ctx.evaluations += L + R
+    np.random.seed((ctx.seed * 7919 + 31 * L + R) % (2 ** 32))     # frontier choice is np.random.choice: make it repeatable
+    axis = np.array([float(k) for k in range(-L, R + 1)])
+    g = zoo.CTMCGrid(h=1.0, origin_coordinate=L, axes=[axis])
+    p = PairingToZ1d((-L, R), omit_zero=True)
+    sm = StatesManager(pairing=p, domain=Domain(boundary=Boundary(), grid=g, pairing=p), grid=g)
+    sm_check(ctx, probe, inp, cls, sm, 1, L, [L + R + 1], lambda xs: f"sm1d {L} {R} -1 {wi(xs)}", after_calls=24)
+    # every post-exhaustion state must be one of the two frontier states
+    try:
+        post = [as_state(sm.project_index_to_state_increment(L + R + 50 + k)[0], 1)[0] for k in range(24)]
+    except Exception as e:  # noqa
+        ctx.fail("oracle", probe, inp, {"what": "project_index_to_state_increment raised after exhaustion", "exception": repr(e)}, cls=cls)
+        return
+    if any(v not in (-L, R) for v in post):
+        ctx.fail("oracle", probe, inp, {"what": "state handed back after exhaustion is not a frontier state of the grid",
+                                        "got": sorted(set(post)), "frontier": [-L, R]}, cls=cls)
 
 
 def make_box_grid(inp):
@@ -576,7 +649,8 @@ def probe_sm_history(ctx, inp):
 
 PROBES = {"c14.proj_block": probe_proj_block, "c14.pair_tuples": probe_pair_tuples, "c14.hyperbolic": probe_hyperbolic,
           "c14.fold": probe_fold, "c14.zd_block": probe_zd_block, "c14.zd_states": probe_zd_states,
-          "c14.z1d_increasing": probe_z1d_increasing, "c14.z1d_order": probe_z1d_order, "c14.lazy": probe_lazy,
+          "c14.z1d_increasing": probe_z1d_increasing, "c14.z1d_order": probe_z1d_order, "c14.z1d_stable": probe_z1d_stable,
+          "c14.sm_frontier_after_exhaustion": probe_sm_frontier_after_exhaustion, "c14.lazy": probe_lazy,
           "c14.sm_1d": probe_sm_1d, "c14.sm_box": probe_sm_box, "c14.sm_history": probe_sm_history}
 
 
@@ -651,6 +725,14 @@ def run(ctx):
                 probe_z1d_increasing(ctx, dict(L=L, R=R, omit=omit))
     for L, R in ((7, 13), (13, 7), (1, 200), (200, 1), (150, 151), (64, 64)):
         probe_z1d_increasing(ctx, dict(L=L, R=R, omit=True))
+    # long asymmetric intervals (more than 2^10 indices after the switch): the answers must be stable when asked again
+    for long in (1100, 1500, 3000, 5000):
+        for short in (range(1, 9) if ctx.thorough else (1, 2, 4, 8)):
+            probe_z1d_stable(ctx, dict(L=short, R=long, omit=True))
+            probe_z1d_stable(ctx, dict(L=long, R=short, omit=True))
+    for L, R, omit in ((3, 1100, False), (1100, 3, False), (40, 40, True), (7, 13, True), (rng.randint(1, 8), rng.randint(1030, 2500), True),
+                       (rng.randint(1030, 2500), rng.randint(1, 8), True)):
+        probe_z1d_stable(ctx, dict(L=L, R=R, omit=omit))
     # the Lean negation witness z1d_order_counterexample, replayed on the implementation
     for hist in ([6, 5], [5, 6], [6, 0, 1, 2, 3, 4, 5, 6]):
         probe_z1d_order(ctx, dict(L=2, R=5, omit=True, history=hist))
@@ -700,6 +782,8 @@ def run(ctx):
             if gk == "credit":
                 kw["level_a"] = -rng.choice([0.25, 0.3, 0.5])
             probe_sm_1d(ctx, dict(source="factory", family=fam, params=params, grid_kind=gk, h=h, kw=kw))
+    for L, R in ((4, 1400), (1400, 3), (rng.randint(1, 6), rng.randint(1100, 2000))):
+        probe_sm_frontier_after_exhaustion(ctx, dict(L=L, R=R))
     # 8. StatesManager: boxes
     for d, nbs in ((2, [3, 4, 5, 6, 9]), (3, [3, 4, 5] + ([6] if ctx.thorough else []))):
         for nb in nbs:
